@@ -173,12 +173,24 @@ struct Plan
     for (size_t l = 0; l < P->lines.size(); l++) if (bytepos <= P->lines[l].second) return P->lineTitle[l];
     return "end";
   }
+  // where a prefix of k bytes ends (a function of the valid text and k only)
+  std::string cutClass(size_t k) const
+  {
+    const std::string& t = P->text;
+    if (k == 0) return "empty";
+    if (k <= 2) return "tiny";                                         // shorter than a byte-order mark
+    size_t nl = t.find('\n');
+    if (nl == std::string::npos || k <= nl) return "in-first-line";
+    if (t[k - 1] == '\n' || (k < t.size() && t[k] == '\n')) return "at-line-end";
+    if (!isspace((unsigned char)t[k - 1]) && k < t.size() && !isspace((unsigned char)t[k])) return "mid-token";
+    return "mid-line";
+  }
   bool make(size_t i, Mut& m) const
   {
     const std::string& t = P->text;
-    if (i < nPrefix) { m = {"truncate", titleAt(i), t.substr(0, i), "prefix of " + std::to_string(i) + " bytes", "truncated"}; return true; }
+    if (i < nPrefix) { m = {"truncate", titleAt(i), t.substr(0, i), "prefix of " + std::to_string(i) + " bytes", "truncated=" + cutClass(i)}; return true; }
     i -= nPrefix;
-    if (i < nGarbage) { m = {"truncate-garbage", titleAt(i), t.substr(0, i) + "x9", "prefix of " + std::to_string(i) + " bytes + 'x9'", "truncated"}; return true; }
+    if (i < nGarbage) { m = {"truncate-garbage", titleAt(i), t.substr(0, i) + "x9", "prefix of " + std::to_string(i) + " bytes + 'x9'", "truncated=" + cutClass(i)}; return true; }
     i -= nGarbage;
     if (i < nTok)
     {
